@@ -20,7 +20,7 @@ import RuxModel.Model.PathFmt
     group <prefix> <arg>   …   end
     controller <prefix> <arg>   …   end
     resource <rid> <kind> <base> <resname> <implmask> <usesmask> <arg>
-                                                 <kind> = ptr | val | ptrint | same  (same: Go side registers ONE controller value
+                                                 <kind> = ptr | val | ptrint | ptrptr | same  (same: Go side registers ONE controller value
                                                  per <rid> again and again, also across `new`; for the model a registration like any other)
     notfound <arg> | notallowed <arg>
     run                                          -> ok <#routes> ;; <pfx> <#grp> <#globals>  |  panic:msg
@@ -128,7 +128,8 @@ def parseSimple (bufs : List (Nat × List H)) : List String → Option Stmt
     match rid.toNat?, Bytes.ofHex base, Bytes.ofHex res, impl.toNat?, uses.toNat?, parseArg bufs a with
     | some rid, some base, some res, some impl, some uses, some mws =>
       let k := if kind = "ptr" then some CtrlKind.ptrStruct else if kind = "val" then some .nonPtr
-               else if kind = "ptrint" then some .ptrNonStruct
+               -- `ptrptr`: a pointer to a pointer to the struct — what it points to is not a struct
+               else if kind = "ptrint" ∨ kind = "ptrptr" then some .ptrNonStruct
                -- `same`: the harness hands the controller VALUE of an earlier `resource <rid> same` line to
                -- Resource again (other base path / other router). Resource only reads the controller and
                -- the map its Uses() returns: every registration is the registration of a fresh controller.
